@@ -177,7 +177,7 @@ def moment_config(rnd, tier, force=None):
     import hmclab
     D, M = hmclab.Distributions, hmclab.MassMatrices
     d = 2
-    tk = rnd.choice(["gaussian", "gaussian_full", "laplace", "mixture", "truncated"])
+    tk = rnd.choice(["gaussian", "gaussian_full", "laplace", "mixture", "mixture_scalar", "truncated"])
     if force and "target" in force:
         tk = force["target"]
     mu = numpy.array([[0.5], [-1.0]])
@@ -202,11 +202,16 @@ def moment_config(rnd, tier, force=None):
         var = 2 * b ** 2
         mean, second = mu, var + mu ** 2
         fourth = 24 * b ** 4 + 6 * var * mu ** 2 + mu ** 4
-    elif tk == "mixture":
+    elif tk in ("mixture", "mixture_scalar"):
         m1, m2 = mu, mu + numpy.array([[2.0], [1.0]])
-        v1, v2 = numpy.array([[0.5], [0.7]]), numpy.array([[1.0], [0.4]])
         w = 0.35
-        target = D.Mixture([D.Normal(m1, v1), D.Normal(m2, v2)], [w, 1 - w])
+        if tk == "mixture":
+            v1, v2 = numpy.array([[0.5], [0.7]]), numpy.array([[1.0], [0.4]])
+            target = D.Mixture([D.Normal(m1, v1), D.Normal(m2, v2)], [w, 1 - w])
+        else:
+            # isotropic components given by one number each
+            v1, v2 = numpy.full((d, 1), 0.5), numpy.full((d, 1), 2.0)
+            target = D.Mixture([D.Normal(m1, 0.5), D.Normal(m2, 2.0)], [w, 1 - w])
 
         def draw(rng, n):
             pick = rng.uniform(size=(1, n)) < w
@@ -224,6 +229,19 @@ def moment_config(rnd, tier, force=None):
         mean = numpy.array([[t.mean()] for t in tn])
         second = numpy.array([[t.moment(2)] for t in tn])
         fourth = numpy.array([[t.moment(4)] for t in tn])
+    # the density the exact starting draws come from, up to a constant (to compare with exp(-misfit))
+    gl = lambda x, m, v: -0.5 * float(numpy.sum((x - m) ** 2 / v)) - 0.5 * float(numpy.sum(numpy.log(2 * numpy.pi * v)))
+    if tk == "gaussian":
+        logpdf = lambda x: gl(x, mu, var)
+    elif tk == "gaussian_full":
+        Pm = numpy.linalg.inv(cov)
+        logpdf = lambda x: -0.5 * float(((x - mu).T @ Pm @ (x - mu)).item())
+    elif tk == "laplace":
+        logpdf = lambda x: -float(numpy.sum(numpy.abs(x - mu) / b))
+    elif tk in ("mixture", "mixture_scalar"):
+        logpdf = lambda x: float(numpy.log(w * numpy.exp(gl(x, m1, v1)) + (1 - w) * numpy.exp(gl(x, m2, v2))))
+    else:
+        logpdf = lambda x: gl(x, mu, numpy.ones((d, 1)))
     kind = rnd.choice(["hmc", "hmc", "hmc", "rwmh"])
     cfg = {"target": tk, "kind": kind}
     if kind == "hmc":
@@ -240,6 +258,7 @@ def moment_config(rnd, tier, force=None):
             else:
                 cfg.update(stepmode="vector", stepsize=1.0)
         cfg.update({k: v for k, v in force.items() if k not in ("target", "kind")})
+    cfg["_logpdf"] = logpdf
     return cfg, target, draw, mean, second, fourth
 
 
@@ -247,11 +266,22 @@ def moment_test(rnd, tier, k, force=None):
     import hmclab
     S, M = hmclab.Samplers, hmclab.MassMatrices
     cfg, target, draw, mean, second, fourth = moment_config(rnd, tier, force)
+    logpdf = cfg.pop("_logpdf")
     d = 2
     n = 1500 if tier == "quick" else 6000
     transitions = 3
     rng = numpy.random.default_rng(4000 + k)
     starts = draw(rng, n)
+    # the chains are started from draws of a known density: exp(-misfit) must be that density up to a constant
+    x0 = starts[:, 0:1]
+    worst = 0.0
+    with numpy.errstate(all="ignore"):
+        for j in range(1, 25):
+            xj = starts[:, j:j + 1]
+            dm = float(target.misfit(xj.copy())) - float(target.misfit(x0.copy()))
+            dl = -(logpdf(xj) - logpdf(x0))
+            worst = max(worst, abs(dm - dl) / max(1.0, abs(dl)))
+    cfg["density_mismatch"] = worst
     if cfg["kind"] == "hmc":
         smp = S.HMC(seed=1)
         mass = {"unit": lambda: M.Unit(d), "diagonal": lambda: M.Diagonal(numpy.array([0.6, 1.7])), "full": lambda: M.Full(numpy.array([[1.2, 0.3], [0.3, 0.9]]))}[cfg["mass"]]()
@@ -277,7 +307,7 @@ def moment_test(rnd, tier, k, force=None):
     z2 = numpy.abs((ends ** 2).mean(axis=1, keepdims=True) - second) / numpy.sqrt((fourth - second ** 2) / n)
     cfg["acceptance"] = smp.accepted_proposals / (n * transitions)
     cfg["z_first"], cfg["z_second"] = float(z1.max()), float(z2.max())
-    bad = z1.max() > 7 or z2.max() > 7
+    bad = z1.max() > 7 or z2.max() > 7 or cfg["density_mismatch"] > 1e-9
     return cfg, bad
 
 
@@ -336,20 +366,22 @@ def run(tier, seed):
                                     {"cfg": metas[j], "no_failing_input_found": key not in found, "failing_input": found.get(key)}))
     for k, log in errors:
         violations.append(Violation("coq-error", "correspondence shard failed: " + log[-300:], {"log": log, "no_failing_input_found": True}))
+    kinds = ["gaussian", "gaussian_full", "laplace", "mixture", "mixture_scalar", "truncated"]
     for k in range(6 if tier == "quick" else 60):
-        cfg, badm = moment_test(rnd, tier, k)
+        cfg, badm = moment_test(rnd, tier, k, force={"target": kinds[k % len(kinds)]})      # every target kind in every run
         dist["moment_tests"] += 1
         dist["moment_chains"] += 1500 if tier == "quick" else 6000
         if badm:
             violations.append(Violation(f"moments-{cfg['target']}-{cfg['kind']}", f"chains started from exact draws of the {cfg['target']} target leave it after 3 transitions: first / second moments "
-                                        f"are {cfg['z_first']:.1f} / {cfg['z_second']:.1f} standard errors off ({cfg})", {"moment_cfg": cfg}))
+                                        f"are {cfg['z_first']:.1f} / {cfg['z_second']:.1f} standard errors off; exp(-misfit) deviates from the density of the draws by "
+                                        f"{cfg['density_mismatch']:.2g} (relative, in the log) ({cfg})", {"moment_cfg": cfg}))
         if k < 2:
             samples.append({"moment_test": cfg})
     return {
         "evaluations": dist["composition_runs"] + dist["moment_tests"], "distinct_nontrivial": len(seen),
         "rule": "composition tie: complete runs of the real samplers with real Unit/Diagonal/Full masses and Normal (diag / full) / Laplace targets behind logging wrappers, "
                 "scripted random numbers, all integrators; moment tests: 1500 (thorough 6000) independent chains from exact draws of Gaussian, correlated Gaussian, Laplace, "
-                "mixture and box-truncated targets, 3 transitions each through _propose/_evaluate_acceptance, first and second moments vs closed forms at 7 standard errors",
+                "mixture (per-dimension and scalar variances) and box-truncated targets, 3 transitions each through _propose/_evaluate_acceptance, first and second moments vs closed forms at 7 standard errors",
         "samples": samples, "violations": violations,
         "traces_validated_against_impl": len(coq) - len(bad),
         "coverage": {"distribution": dist, "correspondence_failures": len(bad)},
